@@ -106,7 +106,7 @@ def run(ctx):
            "CP_VERDICT": wd / "verdict.json"}
 
     # ---- (1) TLC: the transcription is self-consistent over the universe (exhaustive) ----------------------------
-    mc_env = dict(env)
+    mc_env = dict(env, CP_N=20 if ctx.quick else 64)
     (wd / "MC.cfg").write_text(tlc.mk_cfg(invariants=["TypeOK", "WordFits", "RoundTrip", "Canonical", "FatalIff"]))
     res = tlc.run(wd, "CallPack", "MC.cfg", workers=ctx.workers, coverage=True, env=mc_env)
     ctx.add_tlc(res, f"CallPack Pack/Unpack/Reject over the call universe, alleles <= {mc_env['CP_N']} + boundaries")
@@ -114,11 +114,11 @@ def run(ctx):
         # the specification contradicts itself: machinery problem, not a verdict on the code
         raise RuntimeError(f"CallPack.tla is not self-consistent: {v.kind} {v.name} {v.trace[-1:]}")
     ctx.require_covered(res, ["Pack", "Reject", "Unpack"], "CallPack")
-    for inv in ("NeverDone", "NeverFatal", "NeverSign"):  # antecedents of the invariants are reachable
-        (wd / "Vac.cfg").write_text(tlc.mk_cfg(invariants=[inv]))
-        r = tlc.run(wd, "CallPack", "Vac.cfg", workers=1, env=dict(env, CP_N=2, CP_DENSE=1))
-        if not any(v.name == inv for v in r.violations):
-            raise RuntimeError(f"vacuity: {inv} was expected to be violated")
+    # antecedents are reachable: Pack/Reject/Unpack taken (done and fatal states exist); a done state with bit 31 set exists
+    (wd / "Vac.cfg").write_text(tlc.mk_cfg(invariants=["NeverSign"]))
+    r = tlc.run(wd, "CallPack", "Vac.cfg", workers=1, env=dict(env, CP_N=2, CP_DENSE=1))
+    if not any(v.name == "NeverSign" for v in r.violations):
+        raise RuntimeError("vacuity: NeverSign was expected to be violated")
 
     # ---- (2) TLC writes the inputs (and checks the bijection in VCF order while doing so) ------------------------
     rng = random.Random(ctx.seed)
